@@ -241,9 +241,11 @@ func (s *c08State) put(topics []string, mode string) {
 		s.m.NextID++
 	}
 	s.m.Entries = append(s.m.Entries, rpEntry{ID: got.ID.String(), Token: tok, Topics: topics})
-	sh := mon.ProbeShape(s.rp)
-	if sh.OK {
-		s.shape[fmt.Sprintf("%d/%d/%d/%d", sh.Head, sh.Tail, sh.Count, sh.Cap)] = struct{}{}
+	if s.m.Cap <= 64 {
+		sh := mon.ProbeShape(s.rp)
+		if sh.OK {
+			s.shape[fmt.Sprintf("%d/%d/%d/%d", sh.Head, sh.Tail, sh.Count, sh.Cap)] = struct{}{}
+		}
 	}
 }
 
@@ -288,14 +290,12 @@ func (s *c08State) replay(class string, id sse.EventID, subTopics []string, fail
 		}
 	}
 	// An event outside the buffer (evicted) must never be sent, whatever was presented.
+	inBuf := make(map[string]struct{}, len(s.m.Entries)-lo)
+	for _, e := range s.m.Entries[lo:] {
+		inBuf[e.Token] = struct{}{}
+	}
 	for _, t := range o.Tokens {
-		found := false
-		for _, e := range s.m.Entries[lo:] {
-			if e.Token == t {
-				found = true
-			}
-		}
-		if !found {
+		if _, found := inBuf[t]; !found {
 			s.viol([]string{"replayed_event_not_in_buffer", "class_" + class}, "Replay sent %q which is not among the last %d events", t, s.m.Cap)
 			return
 		}
@@ -390,12 +390,26 @@ func (s *c08State) neverIssued() []string {
 }
 
 func c08New(r *fw.Run, key string, capN int, auto bool) *c08State {
+	return c08NewAt(r, key, capN, auto, 0)
+}
+
+// autoIDStarts: values the automatic-ID counter is moved to before the first Put, so that
+// histories cross digit-count and word-size boundaries.
+var autoIDStarts = []uint64{7, 97, 999999995, 1<<31 - 4, 1<<32 - 4, 9999999997, 1<<53 - 3, 1<<63 - 5}
+
+func c08NewAt(r *fw.Run, key string, capN int, auto bool, start uint64) *c08State {
 	rp, err := sse.NewFiniteReplayer(capN, auto)
 	if err != nil {
 		r.Violation(key, []string{"constructor_failed"}, nil, "NewFiniteReplayer(%d,%v): %v", capN, auto, err)
 		return nil
 	}
-	return &c08State{r: r, key: key, rp: rp, m: &rpModel{Auto: auto, Cap: capN}, hist: &c08Hist{Cap: capN, Auto: auto}, shape: map[string]struct{}{}}
+	s := &c08State{r: r, key: key, rp: rp, m: &rpModel{Auto: auto, Cap: capN}, hist: &c08Hist{Cap: capN, Auto: auto}, shape: map[string]struct{}{}}
+	if auto && start > 0 && mon.SetAutoIDCounter(rp, start) {
+		s.m.NextID = start
+		s.hist.Ops = append(s.hist.Ops, fmt.Sprintf("(automatic-ID counter moved to %d)", start))
+		r.Count("histories_with_moved_id_counter", 1)
+	}
+	return s
 }
 
 func TestC08(t *testing.T) {
@@ -460,7 +474,11 @@ func TestC08(t *testing.T) {
 		capN := capsB[rng.IntN(len(capsB))]
 		auto := rng.IntN(2) == 0
 		r.Begin(key, fmt.Sprintf("cap=%d auto=%v", capN, auto))
-		s := c08New(r, key, capN, auto)
+		var start uint64
+		if auto && rng.IntN(4) == 0 {
+			start = autoIDStarts[rng.IntN(len(autoIDStarts))]
+		}
+		s := c08NewAt(r, key, capN, auto, start)
 		if s == nil {
 			continue
 		}
@@ -527,6 +545,96 @@ func TestC08(t *testing.T) {
 			r.Sample("random_history", 2, s.hist)
 		}
 	}
+	// (L) large capacities: hundreds of slots, thousands of Puts, the ring wraps several times
+	nl := r.N(48, 800)
+	for i := 0; i < nl; i++ {
+		if !r.Mine("L", i) {
+			continue
+		}
+		key := fw.Key("L", i)
+		rng := r.Rand("L", i)
+		capN := []int{100, 128, 300, 1000}[rng.IntN(4)]
+		auto := rng.IntN(2) == 0
+		var start uint64
+		if auto && rng.IntN(2) == 0 {
+			start = autoIDStarts[rng.IntN(len(autoIDStarts))]
+		}
+		r.Begin(key, fmt.Sprintf("large cap=%d auto=%v start=%d", capN, auto, start))
+		s := c08NewAt(r, key, capN, auto, start)
+		if s == nil {
+			continue
+		}
+		nputs := capN/2 + rng.IntN(3*capN)
+		for j := 0; j < nputs; j++ {
+			s.put(topicSets[rng.IntN(3)], "valid")
+			if rng.IntN(40) == 0 {
+				s.put(topicSets[0], []string{"wrong_id_mode", "no_topics"}[rng.IntN(2)])
+			}
+			if rng.IntN(25) == 0 || j == nputs-1 {
+				lo, nn := s.m.windowFinite(), len(s.m.Entries)
+				sub := topicSets[rng.IntN(3)]
+				for _, k := range []int{lo, lo + (nn-lo)/2, nn - 2, nn - 1} {
+					if k >= lo && k < nn {
+						class := "middle"
+						if k == lo {
+							class = "oldest"
+						}
+						if k == nn-1 {
+							class = "newest"
+						}
+						s.replay(class, sse.ID(s.m.Entries[k].ID), sub, 0, 0)
+					}
+				}
+				if lo > 0 {
+					s.replay("evicted", sse.ID(s.m.Entries[lo-1].ID), sub, 0, 0)
+				}
+				s.replay("unset", sse.EventID{}, sub, 0, 0)
+				for _, ni := range s.neverIssued() {
+					s.replay("never_issued", sse.ID(ni), sub, 0, 0)
+				}
+			}
+		}
+		s.hist.Ops = []string{fmt.Sprintf("(%d puts into capacity %d; op list omitted)", nputs, capN)}
+		for k := range s.shape {
+			shapes[k] = struct{}{}
+		}
+		r.Eval(fw.Hash("c08L", fmt.Sprint(capN, auto, start, nputs)), true)
+	}
+	// (H) one huge history: a capacity of 70000 and 150000 Puts (counts beyond 16 bits)
+	if r.Mine("H", 0) {
+		key := fw.Key("H", 0)
+		r.Begin(key, "finite capacity 70000, 150000 puts")
+		for _, auto := range []bool{true, false} {
+			rp, _ := sse.NewFiniteReplayer(70000, auto)
+			const total = 150000
+			ids := make([]string, total)
+			for k := 0; k < total; k++ {
+				msg := mkMsg("h"+strconv.Itoa(k), "hid-"+strconv.Itoa(k), !auto)
+				got, err := rp.Put(msg, []string{"a"})
+				if err != nil || got == nil {
+					r.Violation(key, []string{"valid_put_rejected"}, nil, "C08: Put #%d failed: %v", k, err)
+					break
+				}
+				ids[k] = got.ID.String()
+			}
+			for _, from := range []int{total - 70000, total - 65537, total - 65536, total - 2, total - 1} {
+				o := rpDoReplay(rp, sse.ID(ids[from]), []string{"a"}, 0, 0)
+				okSeq := len(o.Tokens) == total-1-from
+				for k := 0; okSeq && k < len(o.Tokens); k++ {
+					okSeq = o.Tokens[k] == "h"+strconv.Itoa(from+1+k)
+				}
+				r.Count("replays", 1)
+				r.Count("sends_observed", int64(len(o.Tokens)))
+				if !okSeq {
+					r.Violation(key, []string{"replay_sequence_wrong", "huge_history"}, map[string]any{"capacity": 70000, "puts": total, "auto": auto, "from_index": from, "sent": len(o.Tokens), "want": total - 1 - from}, "C08: capacity 70000 after %d puts: replay from put #%d sent %d events, want %d", total, from, len(o.Tokens), total-1-from)
+				}
+			}
+			if o := rpDoReplay(rp, sse.ID(ids[total-70001]), []string{"a"}, 0, 0); !auto && len(o.Tokens) != 0 {
+				r.Violation(key, []string{"replayed_event_not_in_buffer", "huge_history"}, nil, "C08: an evicted manual ID replayed %d events", len(o.Tokens))
+			}
+		}
+		r.Eval(fw.Hash("c08H"), true)
+	}
 	r.Count("ring_shapes_distinct_in_batch", int64(len(shapes)))
 }
 
@@ -545,10 +653,17 @@ type c09State struct {
 }
 
 func (s *c09State) viol(tags []string, format string, a ...any) {
-	s.r.Violation(s.key, tags, map[string]any{"config": s.cfg, "ops": append([]string(nil), s.ops...), "detail": fmt.Sprintf(format, a...)}, "C09: "+format, a...)
+	ops := s.ops
+	if len(ops) > 80 {
+		ops = append([]string{fmt.Sprintf("(... %d earlier ops omitted ...)", len(ops)-80)}, ops[len(ops)-80:]...)
+	}
+	s.r.Violation(s.key, tags, map[string]any{"config": s.cfg, "ops": append([]string(nil), ops...), "detail": fmt.Sprintf(format, a...)}, "C09: "+format, a...)
 }
 
 func (s *c09State) probe() {
+	if len(s.m.Entries) > 400 && len(s.m.Entries)%64 != 0 {
+		return // the reflection walk is linear in the ring size
+	}
 	sh := mon.ProbeShape(s.rp)
 	if sh.OK {
 		s.shape[fmt.Sprintf("%d/%d/%d/%d", sh.Head, sh.Tail, sh.Count, sh.Cap)] = struct{}{}
@@ -622,14 +737,12 @@ func (s *c09State) replay(class string, id sse.EventID, sub []string, failSend i
 	s.r.Count("sends_observed", int64(len(o.Tokens)))
 	fu := s.m.firstUnexpired(s.now)
 	// Never an expired event, whatever was presented.
+	live := make(map[string]struct{}, len(s.m.Entries)-fu)
+	for _, e := range s.m.Entries[fu:] {
+		live[e.Token] = struct{}{}
+	}
 	for _, t := range o.Tokens {
-		ok := false
-		for _, e := range s.m.Entries[fu:] {
-			if e.Token == t {
-				ok = true
-			}
-		}
-		if !ok {
+		if _, ok := live[t]; !ok {
 			s.viol([]string{"expired_event_replayed", "class_" + class}, "Replay sent %q which has expired (or was never put)", t)
 			return
 		}
@@ -718,7 +831,35 @@ func (s *c09State) replayAll(full bool) {
 	}
 }
 
+// replaySome presents a handful of IDs of a large history (oldest unexpired, middle, newest,
+// an expired one, unset, never issued).
+func (s *c09State) replaySome(rng *rand.Rand) {
+	fu := s.m.firstUnexpired(s.now)
+	n := len(s.m.Entries)
+	sub := topicSets[rng.IntN(3)]
+	for _, k := range []int{fu, fu + (n-fu)/2, n - 2, n - 1} {
+		if k >= fu && k < n {
+			class := "middle"
+			if k == fu {
+				class = "oldest_unexpired"
+			}
+			if k == n-1 {
+				class = "newest"
+			}
+			s.replay(class, sse.ID(s.m.Entries[k].ID), sub, 0)
+		}
+	}
+	if fu > 0 {
+		s.replay("expired", sse.ID(s.m.Entries[fu-1].ID), sub, 0)
+	}
+	s.replay("unset", sse.EventID{}, sub, 0)
+	s.replay("never_issued", sse.ID("never"), sub, 0)
+}
+
 var c09Epoch = time.Date(2024, 1, 1, 0, 0, 0, 0, time.UTC)
+
+// c09Start: where the next ValidReplayer's automatic-ID counter is moved to (0 = leave at 0).
+var c09Start uint64
 
 func c09New(r *fw.Run, key string, ttl time.Duration, auto bool, gcMode int) *c09State {
 	rp, err := sse.NewValidReplayer(ttl, auto)
@@ -727,6 +868,10 @@ func c09New(r *fw.Run, key string, ttl time.Duration, auto bool, gcMode int) *c0
 		return nil
 	}
 	s := &c09State{r: r, key: key, rp: rp, m: &rpModel{Auto: auto, TTL: ttl}, now: c09Epoch, shape: map[string]struct{}{}}
+	if auto && c09Start > 0 && mon.SetAutoIDCounter(rp, c09Start) {
+		s.m.NextID = c09Start
+		r.Count("histories_with_moved_id_counter", 1)
+	}
 	rp.Now = func() time.Time { return s.now }
 	switch gcMode {
 	case 0:
@@ -831,7 +976,7 @@ func TestC09(t *testing.T) {
 	}
 	// (B) random long histories with growth / wrap / shrink.
 	n := r.N(3000, 100000)
-	ttls := []time.Duration{1, 10, 1000, time.Second}
+	ttls := []time.Duration{1, 10, 1000, time.Second, 1, 10, 1000, time.Second, 100 * 365 * 24 * time.Hour, 1<<63 - 1}
 	for i := 0; i < n; i++ {
 		if !r.Mine("B", i) {
 			continue
@@ -842,14 +987,31 @@ func TestC09(t *testing.T) {
 		auto := rng.IntN(2) == 0
 		gcMode := rng.IntN(6)
 		r.Begin(key, fmt.Sprintf("ttl=%d auto=%v gc=%d", ttl, auto, gcMode))
+		c09Start = 0
+		if auto && rng.IntN(4) == 0 {
+			c09Start = autoIDStarts[rng.IntN(len(autoIDStarts))]
+		}
 		s := c09New(r, key, ttl, auto, gcMode)
+		c09Start = 0
 		if s == nil {
 			continue
 		}
+		if s.m.NextID > 0 {
+			s.cfg += fmt.Sprintf(" id-counter-moved-to=%d", s.m.NextID)
+		}
 		deltas := []time.Duration{0, 1, ttl / 4, ttl - 1, ttl, ttl + 1, 3 * ttl, ttl / 2}
+		if ttl > 24*time.Hour {
+			// "keep (almost) forever": the clock only moves by amounts that stay far from any overflow
+			deltas = []time.Duration{0, 1, time.Second, time.Hour, 24 * time.Hour, 1000}
+		}
 		nops := 5 + rng.IntN(120)
 		var sig strings.Builder
 		burst := 0
+		if i%300 == 7 {
+			// a long history with bursts of hundreds of events (the ring grows to 1024+ slots and
+			// shrinks back several times)
+			nops = 1500 + rng.IntN(1500)
+		}
 		for j := 0; j < nops; j++ {
 			x := rng.IntN(20)
 			if burst > 0 {
@@ -862,6 +1024,9 @@ func TestC09(t *testing.T) {
 				sig.WriteByte('P')
 				if rng.IntN(12) == 0 {
 					burst = 3 + rng.IntN(30) // grow the buffer
+					if nops > 1000 {
+						burst = 100 + rng.IntN(500)
+					}
 				}
 			case x == 9:
 				s.badPut()
@@ -877,11 +1042,20 @@ func TestC09(t *testing.T) {
 				s.advance(d)
 				sig.WriteString("A" + strconv.Itoa(int(d)))
 			default:
-				s.replayAll(rng.IntN(3) == 0)
+				if nops > 1000 {
+					s.replaySome(rng)
+				} else {
+					s.replayAll(rng.IntN(3) == 0)
+				}
 				sig.WriteByte('R')
 			}
 		}
-		s.replayAll(true)
+		if nops > 1000 {
+			s.replaySome(rng)
+			s.ops = s.ops[max(0, len(s.ops)-40):]
+		} else {
+			s.replayAll(true)
+		}
 		for k := range s.shape {
 			shapes[k] = struct{}{}
 		}
@@ -889,6 +1063,42 @@ func TestC09(t *testing.T) {
 		if i < 64 {
 			r.Sample("random_history", 2, map[string]any{"config": s.cfg, "ops": s.ops[:min(len(s.ops), 40)], "ring_shapes": len(s.shape)})
 		}
+	}
+	// (H) one huge history: more than 2^16 simultaneously unexpired events
+	if r.Mine("H", 0) {
+		key := fw.Key("H", 0)
+		r.Begin(key, "valid replayer with 70000 unexpired events")
+		for _, auto := range []bool{true, false} {
+			rp, _ := sse.NewValidReplayer(time.Hour, auto)
+			now := c09Epoch
+			rp.Now = func() time.Time { return now }
+			const total = 70000
+			ids := make([]string, total)
+			for k := 0; k < total; k++ {
+				if k%1000 == 0 {
+					now = now.Add(time.Millisecond)
+				}
+				got, err := rp.Put(mkMsg("h"+strconv.Itoa(k), "hid-"+strconv.Itoa(k), !auto), []string{"a"})
+				if err != nil || got == nil {
+					r.Violation(key, []string{"valid_put_rejected"}, nil, "C09: Put #%d failed: %v", k, err)
+					break
+				}
+				ids[k] = got.ID.String()
+			}
+			for _, from := range []int{0, 1, total - 65537, total - 65536, total - 2, total - 1} {
+				o := rpDoReplay(rp, sse.ID(ids[from]), []string{"a"}, 0, 0)
+				okSeq := len(o.Tokens) == total-1-from
+				for k := 0; okSeq && k < len(o.Tokens); k++ {
+					okSeq = o.Tokens[k] == "h"+strconv.Itoa(from+1+k)
+				}
+				r.Count("replays", 1)
+				r.Count("sends_observed", int64(len(o.Tokens)))
+				if !okSeq {
+					r.Violation(key, []string{"replay_sequence_wrong", "unexpired_event_missing", "huge_history"}, map[string]any{"puts": total, "auto": auto, "from_index": from, "sent": len(o.Tokens), "want": total - 1 - from}, "C09: %d unexpired events: replay from put #%d sent %d events, want %d", total, from, len(o.Tokens), total-1-from)
+				}
+			}
+		}
+		r.Eval(fw.Hash("c09H"), true)
 	}
 	r.Count("ring_shapes_distinct_in_batch", int64(len(shapes)))
 }
